@@ -926,6 +926,8 @@ for _p, _inv in (("C04", "M_C04"), ("C06", "M_C06"), ("C08", "M_C08"), ("C12", "
 # `otel`: the whole process is traced (trace contexts travel in spans; Channel::call takes them from the current span);
 # `otel-server`: only request streams and handlers are traced, the callers are not (an untraced peer, trace id 0 included).
 # Handlers also report `context::current()`, and in half of the scenarios make their nested call with it.
+PROPS["C05"]["families"].append(dict(chain_family(400, 6000), fixed=lambda tier: [], tag="chain-otel", opts={"sub": "otel"}))
+PROPS["C05"]["families"].append(dict(chain_family(300, 6000), fixed=lambda tier: [], tag="chain"))
 for _p in ("C07", "C18"):
     for _sub in ("otel", "otel-server"):
         PROPS[_p]["families"].append(dict(chain_family(500, 8000), fixed=lambda tier: [], tag="chain-" + _sub, opts={"sub": _sub}))
